@@ -47,7 +47,7 @@ shutil.copy(patch, os.path.join(dst, "patch.diff"))
 if os.path.isdir(demo): shutil.copytree(demo, os.path.join(dst, "demo"), dirs_exist_ok=True)
 mt = f"/tmp/mut/{prop}.{k}.meta.txt"
 open(os.path.join(dst, "confirm.log"), "w").write("\n".join(log))
-meta = {"id": f"{prop}-agent{k}", "property": prop.rstrip("bcde"), "origin": "independent sub-agent given only the property text and a scratch worktree",
+meta = {"id": f"{prop}-agent{k}", "property": prop.rstrip("bcdef"), "origin": "independent sub-agent given only the property text and a scratch worktree",
         "needs": open(mt).read() if os.path.exists(mt) else "", "ran": "tools/confirm_mutation.py: patch applies and builds; demo fails with / passes without; pinned suite (1458) passes with the patch",
         "confirmed": ok, "detected_by": "TBD"}
 json.dump(meta, open(os.path.join(dst, "meta.json"), "w"), indent=1)
